@@ -139,6 +139,7 @@ Elems(st, v) ==
 
 Lock(st, v, d) == IF v.t = "ref" THEN [st EXCEPT !.heap[v.id].iters = @ + d] ELSE st
 Mutable(st, id) == st.heap[id].iters = 0
+MutErr(st, id) == IF st.heap[id].iters >= 1000 THEN "frozen" ELSE "iter-mutation"      \* frozen objects carry a permanent lock
 
 DictIdx(st, d, k) == IF \E i \in 1..Len(d.e) : VEq(st, d.e[i][1], k) THEN CHOOSE i \in 1..Len(d.e) : VEq(st, d.e[i][1], k) ELSE 0
 
@@ -403,13 +404,13 @@ CallBuiltin(name, recv, call, pos, st) ==
          [] name = "int" /\ n = 1 /\ args[1].t = "int" -> R(st, args[1])
          [] name = "int" /\ n = 1 /\ args[1].t = "bool" -> R(st, VInt(IF args[1].v THEN 1 ELSE 0))
          \* ---- list methods
-         [] name = "append" /\ n = 1 -> (IF Mutable(st, recv) THEN R([st EXCEPT !.heap[recv].e = Append(@, args[1])], VNone) ELSE RFail(st, "iter-mutation", pos))
-         [] name = "extend" /\ n = 1 /\ it(1).ok -> (IF Mutable(st, recv) THEN R([st EXCEPT !.heap[recv].e = @ \o it(1).e], VNone) ELSE RFail(st, "iter-mutation", pos))
-         [] name = "clear" /\ n = 0 -> (IF Mutable(st, recv) THEN R([st EXCEPT !.heap[recv].e = <<>>], VNone) ELSE RFail(st, "iter-mutation", pos))
+         [] name = "append" /\ n = 1 -> (IF Mutable(st, recv) THEN R([st EXCEPT !.heap[recv].e = Append(@, args[1])], VNone) ELSE RFail(st, MutErr(st, recv), pos))
+         [] name = "extend" /\ n = 1 /\ it(1).ok -> (IF Mutable(st, recv) THEN R([st EXCEPT !.heap[recv].e = @ \o it(1).e], VNone) ELSE RFail(st, MutErr(st, recv), pos))
+         [] name = "clear" /\ n = 0 -> (IF Mutable(st, recv) THEN R([st EXCEPT !.heap[recv].e = <<>>], VNone) ELSE RFail(st, MutErr(st, recv), pos))
          [] name = "pop" /\ n = 0 /\ st.heap[recv].t = "list" ->
               LET es == st.heap[recv].e IN
               IF es = <<>> THEN RFail(st, "index-range", pos)
-              ELSE IF ~Mutable(st, recv) THEN RFail(st, "iter-mutation", pos)
+              ELSE IF ~Mutable(st, recv) THEN RFail(st, MutErr(st, recv), pos)
               ELSE R([st EXCEPT !.heap[recv].e = SubSeq(es, 1, Len(es) - 1)], es[Len(es)])
          \* ---- dict methods
          [] name = "get" /\ n \in {1, 2} /\ Hashable(args[1]) ->
@@ -417,7 +418,7 @@ CallBuiltin(name, recv, call, pos, st) ==
               R(st, IF j # 0 THEN d.e[j][2] ELSE IF n = 2 THEN args[2] ELSE VNone)
          [] name = "setdefault" /\ n \in {1, 2} /\ Hashable(args[1]) ->
               LET d == st.heap[recv] j == DictIdx(st, d, args[1]) dv == IF n = 2 THEN args[2] ELSE VNone IN
-              IF ~Mutable(st, recv) THEN RFail(st, "iter-mutation", pos)
+              IF ~Mutable(st, recv) THEN RFail(st, MutErr(st, recv), pos)
               ELSE IF j # 0 THEN R(st, d.e[j][2]) ELSE R([st EXCEPT !.heap[recv].e = Append(@, <<args[1], dv>>)], dv)
          [] name = "keys" /\ n = 0 -> newlist([i \in 1..Len(st.heap[recv].e) |-> st.heap[recv].e[i][1]])
          [] name = "values" /\ n = 0 -> newlist([i \in 1..Len(st.heap[recv].e) |-> st.heap[recv].e[i][2]])
@@ -447,11 +448,11 @@ AssignTo(tg, v, fr, st) ==
               ELSE CASE IsList(b.st, a.v) /\ b.v.t = "int" ->
                           LET n == Len(b.st.heap[a.v.id].e) j == IF b.v.v < 0 THEN b.v.v + n ELSE b.v.v IN
                           IF j < 0 \/ j >= n THEN Err(b.st, "index-range", tg.p)
-                          ELSE IF ~Mutable(b.st, a.v.id) THEN Err(b.st, "iter-mutation", tg.p)
+                          ELSE IF ~Mutable(b.st, a.v.id) THEN Err(b.st, MutErr(b.st, a.v.id), tg.p)
                           ELSE [b.st EXCEPT !.heap[a.v.id].e[j + 1] = v]
                      [] IsDict(b.st, a.v) /\ Hashable(b.v) ->
                           LET d == b.st.heap[a.v.id] j == DictIdx(b.st, d, b.v) IN
-                          IF ~Mutable(b.st, a.v.id) THEN Err(b.st, "iter-mutation", tg.p)
+                          IF ~Mutable(b.st, a.v.id) THEN Err(b.st, MutErr(b.st, a.v.id), tg.p)
                           ELSE IF j = 0 THEN [b.st EXCEPT !.heap[a.v.id].e = Append(@, <<b.v, v>>)]
                           ELSE [b.st EXCEPT !.heap[a.v.id].e[j] = <<b.v, v>>]
                      [] IsDict(b.st, a.v) /\ b.v.t = "ref" -> Err(b.st, "unhashable", tg.p)
@@ -526,7 +527,7 @@ ExecStmt(s, fr, st) ==
                      ELSE IF op = "+" /\ IsList(b.st, a.v) THEN       \* x += y on a list extends it in place
                           (LET es == Elems(b.st, b.v) IN
                            IF ~es.ok THEN Flow(Err(b.st, IF b.v.t = "str" THEN "unsupported" ELSE "binop", s.p), "next", VNone)
-                           ELSE IF ~Mutable(b.st, a.v.id) THEN Flow(Err(b.st, "iter-mutation", s.p), "next", VNone)
+                           ELSE IF ~Mutable(b.st, a.v.id) THEN Flow(Err(b.st, MutErr(b.st, a.v.id), s.p), "next", VNone)
                            ELSE Flow(Bind1(s.lhs.name, a.v, fr, [b.st EXCEPT !.heap[a.v.id].e = @ \o es.e]), "next", VNone))
                      ELSE LET c == BinOp(b.st, op, a.v, b.v, s.p) IN
                           IF Failed(c.st) THEN Flow(c.st, "next", VNone) ELSE Flow(Bind1(s.lhs.name, c.v, fr, c.st), "next", VNone)
@@ -546,7 +547,15 @@ ExecStmt(s, fr, st) ==
                                     IF Failed(c.st) THEN Flow(c.st, "next", VNone)
                                     ELSE Flow(AssignTo([k |-> "index", p |-> s.lhs.p, x |-> lit(x.v), y |-> lit(y.v)], c.v, fr, c.st), "next", VNone)
            [] OTHER -> Flow(Err(st, "unsupported", s.p), "next", VNone)
-    [] s.k = "load" -> Flow(Err(st, "unsupported", s.p), "next", VNone)
+    [] s.k = "load" ->
+         \* the modelled loader knows one module; loaded names are file-local (not exported as globals)
+         IF s.module # "m.star" THEN Flow(Err(st, "load-failed", s.p), "next", VNone)
+         ELSE IF \E j \in 1..Len(s.from) : s.from[j] \notin {"a", "b", "s"} THEN Flow(Err(st, "load-failed", s.p), "next", VNone)
+         ELSE LET l == Alloc(st, [t |-> "list", e |-> <<VInt(1), VInt(2)>>, iters |-> 1000])     \* a frozen list
+                  val(n) == CASE n = "a" -> VInt(7) [] n = "b" -> VRef(l.id) [] n = "s" -> VStr("str")
+                  RECURSIVE BindAll(_, _)
+                  BindAll(j, s0) == IF j > Len(s.to) THEN s0 ELSE BindAll(j + 1, SetGlobal(s0, s.to[j], val(s.from[j])))
+              IN Flow([BindAll(1, l.st) EXCEPT !.loaded = @ \cup {s.to[j] : j \in 1..Len(s.to)}], "next", VNone)
     [] OTHER -> Flow(Err(st, "unsupported", <<0, 0>>), "next", VNone)
 
 \* ---------------------------------------------------------------- comprehensions
@@ -588,7 +597,7 @@ CompFor(e, ci, xv, acc, fr, st, isFirst) ==
 \* ---------------------------------------------------------------- whole programs
 InitState(ast, opts) ==
   [heap |-> <<>>, glob |-> <<>>, eff |-> <<>>, stack |-> <<<<"<toplevel>", <<0, 0>>, <<0, 0>>>>>>, err |-> NoErr,
-   opts |-> opts, gnames |-> BoundIn(ast.body)]
+   opts |-> opts, gnames |-> BoundIn(ast.body), loaded |-> {}]
 
 Run(ast, opts) == Exec(ast.body, 0, InitState(ast, opts)).st
 
@@ -596,5 +605,6 @@ Run(ast, opts) == Exec(ast.body, 0, InitState(ast, opts)).st
 Outcome(st) == IF Failed(st) THEN st.err.k ELSE "ok"
 ErrPos(st) == st.err.p
 ErrStack(st) == [i \in 1..Len(st.err.stack) |-> st.err.stack[i][1]]
-Globals(st) == [i \in 1..Len(st.glob) |-> <<st.glob[i][1], Deep(st, st.glob[i][2], 6)>>]
+Globals(st) == LET g == SelectSeq(st.glob, LAMBDA x : x[1] \notin st.loaded) IN
+               [i \in 1..Len(g) |-> <<g[i][1], Deep(st, g[i][2], 6)>>]
 =============================================================================
